@@ -453,6 +453,17 @@ def r19_floored(ctx, rule='R1.9'):
                     ctx.ob(rule, '%s.%s:remainder-is-floored-like-its-quotient:%s' % (mname, q, norm(c)[:40]),
                            norm(c.args[1]) not in divs, '`%s` next to `// %s`' % (norm(c), norm(c.args[1])), m.loc(c))
     wr = ctx.repo['writer']
+    # tick counts are integers: scaling them down is a floor division (true division goes through float64, which
+    # cannot hold counts beyond 2**53 exactly)
+    for q in ('time_shift', 'convert'):
+        g = wr.func(q)
+        for x in walk_no_nested(g):
+            if isinstance(x, ast.BinOp) and isinstance(x.op, ast.Div) and ("view('int64')" in norm(x.left) or norm(x.right) == 'factor'):
+                ctx.ob(rule, 'writer.%s:tick-counts-scaled-with-integer-division:%s' % (q, norm(x)[:40]), False,
+                       '`%s`: int64 counts divided through float64 lose the low bits of long durations' % norm(x), wr.loc(x))
+    ts = wr.func('time_shift')
+    ctx.ob(rule, 'writer.time_shift:scales-by-floor-division', any(isinstance(x, ast.BinOp) and isinstance(x.op, ast.FloorDiv) and norm(x.right) == 'factor'
+                                                                     for x in walk_no_nested(ts)), '', wr.loc(ts))
     f = wr.func('convert')
     pairs = [x for x in walk_no_nested(f) if isinstance(x, ast.BinOp) and isinstance(x.op, ast.Mod) and norm(x.right) == 'ns_per_day']
     quos = [x for x in walk_no_nested(f) if isinstance(x, ast.BinOp) and isinstance(x.op, ast.FloorDiv) and norm(x.right) == 'ns_per_day']
